@@ -140,7 +140,7 @@ def pdist(fX, metric="euclidean", **kwargs):
 
 def _cdist_func_1D(X_trn, X_tst, func):
     """Helper function for cdist"""
-    return np.vstack(func(x_trn, X_tst) for x_trn in iter(X_trn))
+    return np.vstack([func(x_trn, X_tst) for x_trn in iter(X_trn)])
 
 
 def cdist(fX_trn, fX_tst, metric="euclidean", **kwargs):
